@@ -65,6 +65,13 @@ class Merge:
     def note(self, key: str, value: Any) -> None:
         self.sets.setdefault(key, set()).add(value)
 
+    def reach(self, group: str, label: Any, hit: bool = True) -> None:
+        """Vacuity bookkeeping: `label` is an entry of the hand-written corpus `group`; hit = it was exercised
+        non-trivially (accepted an input, was called, fired).  Entries never hit are listed in the evidence."""
+        self.sets.setdefault(f'reach_all::{group}', set()).add(str(label))
+        if hit:
+            self.sets.setdefault(f'reach_hit::{group}', set()).add(str(label))
+
     def violation(self, signature: str, **detail: Any) -> None:
         # keep at most a few full details per signature inside a shard
         n = sum(1 for v in self.violations if v['signature'] == signature)
@@ -129,6 +136,9 @@ class RunContext:
     def sample(self, case: Any) -> None:
         self.total.sample(case)
 
+    def reach(self, group: str, label: Any, hit: bool = True) -> None:
+        self.total.reach(group, label, hit)
+
     def cap(self, text: str) -> None:
         self.exhaustive = False
         if text not in self.total.caps:
@@ -181,8 +191,18 @@ class RunContext:
         if self.total.caps:
             cov['caps'] = self.total.caps
         cov['counters'] = {k: v for k, v in sorted(c.items()) if not k.startswith('violations_suppressed')}
+        vac = {}
         for k, s in self.total.sets.items():
-            cov.setdefault(f'distinct_{k}', len(s))
+            if k.startswith('reach_all::'):
+                g = k.split('::', 1)[1]
+                never = sorted(s - self.total.sets.get(f'reach_hit::{g}', set()))
+                vac[g] = {'entries': len(s), 'never_exercised': never}
+                if never:
+                    print(f'NOTE {self.prop}: corpus entries never exercised non-trivially in {g}: {never[:12]}')
+            elif not k.startswith('reach_hit::'):
+                cov.setdefault(f'distinct_{k}', len(s))
+        if vac:
+            cov['corpus_reach'] = vac
         cov['known_findings_seen'] = sorted(known_hits)
         ev = {
             'property_id': self.prop,
